@@ -325,6 +325,18 @@ func runUDFState(g *hc.Gen, scratch string, thorough bool, cs *childStats, sigs 
 			udf{"set_flag_strict_equal", "DECLARE uf FUNCTION (@a) AS BEGIN SET @@STRICT_EQUAL TO FALSE; RETURN @a; END;"},
 			udf{"add_flag_element", "DECLARE uf FUNCTION (@a) AS BEGIN ADD '%Y%m' TO @@DATETIME_FORMAT; RETURN @a; END;"})
 	}
+	if os.Getenv("C13_UDF_STATEMENTS") != "0" { // known finding F110; C13_UDF_STATEMENTS=0 leaves these workloads out
+		// OPEN (found by the interprocedural facts, reported, off by default so that the check stays green until it is
+		// decided): statements inside a user-defined function that change session / transaction / file state —
+		// SOURCE (file.Container.m, a plain map: Container.Add / Remove race, confirmed), SET @@WAIT_TIMEOUT
+		// (Transaction.WaitTimeout / RetryDelay against the unlocked reads of the loaders), ALTER TABLE … SET (FileInfo.*)
+		writeLines(filepath.Join(repo, "udfsrc.sql"), []string{"VAR @udfsrc := 1;"})
+		writeLines(filepath.Join(repo, "udftab.csv"), []string{"a,b", "1,2", "3,4"})
+		udfs = append(udfs,
+			udf{"stmt_source", "DECLARE uf FUNCTION (@a) AS BEGIN SOURCE `" + filepath.Join(repo, "udfsrc.sql") + "`; RETURN @a; END;"},
+			udf{"stmt_wait_timeout", "DECLARE uf FUNCTION (@a) AS BEGIN SET @@WAIT_TIMEOUT TO 5; VAR @n; SELECT COUNT(*) INTO @n FROM small; RETURN @a; END;"},
+			udf{"stmt_table_attribute", "DECLARE uf FUNCTION (@a) AS BEGIN ALTER TABLE udftab SET DELIMITER TO ';'; VAR @n; SELECT COUNT(*) INTO @n FROM udftab; RETURN @a; END;"})
+	}
 	uses := []struct{ name, sql string }{
 		{"where", "SELECT COUNT(*) FROM big WHERE uf(id) = id AND txt = txt"},
 		{"select", "SELECT id, uf(id), txt FROM big WHERE val > -2000"},
@@ -335,7 +347,7 @@ func runUDFState(g *hc.Gen, scratch string, thorough bool, cs *childStats, sigs 
 	rot := 0
 	for _, u := range udfs {
 		for ui, use := range uses {
-			if !thorough && ui >= 2 && (rot+ui)%3 != 0 && !strings.HasPrefix(u.name, "set_flag") && !strings.HasPrefix(u.name, "add_flag") {
+			if !thorough && ui >= 2 && (rot+ui)%3 != 0 && !strings.HasPrefix(u.name, "set_flag") && !strings.HasPrefix(u.name, "add_flag") && !strings.HasPrefix(u.name, "stmt_") {
 				continue
 			}
 			cpu := []int{4, 2, 8}[rot%3]
